@@ -190,6 +190,7 @@ class Instr:
 
 class Body:
     def __init__(self, j, crate_file):
+        self.j = j
         self.key = j["key"]
         self.path = j["path"]
         self.crate = j["crate"]
